@@ -6,6 +6,7 @@ import (
 	"crypto/sha256"
 	"encoding/json"
 	"fmt"
+	"go.minekube.com/gate/pkg/edition/java/proxy"
 	"strings"
 	"time"
 
@@ -73,6 +74,13 @@ func runForwarding(r *Run, prop string) {
 	}
 	if prot == version.Minecraft_1_16_4.Protocol {
 		prot = version.Minecraft_1_15.Protocol // JoinGame registry NBT for 1.16.x is not modelled
+	}
+	// a ServerInfo may provide the handshake address itself (HandshakeAddresser): it is given
+	// the player's virtual host and its answer replaces every forwarding scheme
+	var hook *hookedInfo
+	if prop == "C19" && r.W.Pick(5) == 0 {
+		classicWrapInfo = func(b *backendModel) proxy.ServerInfo { hook = &hookedInfo{backendModel: b}; return hook }
+		defer func() { classicWrapInfo = nil }()
 	}
 	w := newClassic(r, []string{"lobby"}, func(cfg *config.Config) {
 		cfg.Forwarding.Mode = mode
@@ -159,6 +167,19 @@ func runForwarding(r *Run, prop string) {
 	playerHost := host
 	if i := strings.IndexByte(playerHost, 0); i >= 0 {
 		playerHost = playerHost[:i]
+	}
+	if prop == "C19" && hook != nil {
+		if len(hook.got) == 0 || strings.Split(hook.got[0], "\x00")[0] != playerHost {
+			r.Fail("handshake-hook-not-given-the-players-host", string(mode), "the ServerInfo's HandshakeAddr hook was given %q, the player's virtual host is %q: %s", hook.got, playerHost, desc())
+			return
+		}
+		if !strings.HasPrefix(addr, "hooked."+playerHost) {
+			r.Fail("player-host-not-first", "hook:"+string(mode), "the backend address %q does not start with the hook's answer for the player's host %q: %s", addr, playerHost, desc())
+			return
+		}
+		r.State(fmt.Sprintf("hook|%s|%q|%d", mode, host, prot))
+		r.Res.Sample = map[string]any{"mode": string(mode), "host": host, "protocol": int(prot), "backend_address": addr, "hook": true}
+		return
 	}
 	if prop == "C19" {
 		parts := strings.Split(addr, "\x00")
